@@ -762,4 +762,385 @@ theorem frozen_immovable (fixed : Bool) (stable s s' : St) (op : Op) (h : apply 
       exact k2 b i n2
 
 
+/-! ## supply = Σ equity (divisible assets), over all block sequences, under the id discipline -/
+
+/-- the (holder, id) keys a transaction may write -/
+def touched : Op → List (Nat × Nat)
+  | .issue _ rc h code _ _ => [(rc, code), (rc, h)]
+  | .replenish _ rc _ id _ => [(rc, id)]
+  | .transfer sd rc id _ _ => [(sd, id), (rc, id)]
+  | _ => []
+
+/-- every entry's asset code names an existing asset -/
+def Live (s : St) : Prop := ∀ a id c e, s.equity a id = some (c, e) → ∃ r, s.assets c = some r
+
+structure SumInv (s : St) (keys : List (Nat × Nat)) : Prop where
+  sum : Gap s keys (fun _ => 0)
+  supp : ∀ a id, s.equity a id ≠ none → (a, id) ∈ keys
+  ids : IdInv s
+  live : Live s
+
+theorem supp_putEquity {s s' : St} {keys : List (Nat × Nat)} {a id : Nat} {e : Nat × Int}
+    (h : putEquity s a id e = .ok s') (S : ∀ a id, s.equity a id ≠ none → (a, id) ∈ keys)
+    (hk : (a, id) ∈ keys) : ∀ a id, s'.equity a id ≠ none → (a, id) ∈ keys := by
+  obtain ⟨_, _, _, he⟩ := putEquity_ok h
+  intro x y hxy
+  rw [he] at hxy
+  by_cases k : x = a ∧ y = id
+  · rw [k.1, k.2]; exact hk
+  · simp only [k, if_false] at hxy; exact S x y hxy
+
+theorem live_putEquity {s s' : St} {a id c : Nat} {e : Int} (h : putEquity s a id (c, e) = .ok s')
+    (L : Live s) (hc : ∃ r, s.assets c = some r) : Live s' := by
+  obtain ⟨_, ha, _, he⟩ := putEquity_ok h
+  intro x y c1 e1 hxy
+  rw [he] at hxy; rw [ha]
+  by_cases k : x = a ∧ y = id
+  · simp only [k, and_self, if_true] at hxy
+    cases hxy; exact hc
+  · simp only [k, if_false] at hxy; exact L x y c1 e1 hxy
+
+theorem live_sameEquity {s s' : St} (he : s'.equity = s.equity)
+    (ha : ∀ x r, s.assets x = some r → ∃ r', s'.assets x = some r') (L : Live s) : Live s' := by
+  intro x y c e hxy
+  rw [he] at hxy
+  obtain ⟨r, hr⟩ := L x y c e hxy
+  exact ha c r hr
+
+theorem live_putSupply {s s' : St} {code : Nat} {v : Int} (h : putSupply s code v = .ok s')
+    (L : Live s) : Live s' := by
+  obtain ⟨r0, _, _, he, _, ha⟩ := putSupply_ok h
+  refine live_sameEquity he ?_ L
+  intro x r hr
+  rw [ha]
+  by_cases e : x = code
+  · simp only [e, if_true]; exact ⟨_, rfl⟩
+  · simp only [e, if_false]; exact ⟨r, hr⟩
+
+theorem sumCode_zero (s : St) (x : Nat) : ∀ keys : List (Nat × Nat),
+    (∀ k ∈ keys, valOf x (s.equity k.1 k.2) = 0) → sumCode s x keys = 0 := by
+  intro keys
+  induction keys with
+  | nil => intro _; rfl
+  | cons k ks ih =>
+    intro h
+    rw [sumCode_cons, entryOf_eq, h k List.mem_cons_self, ih (fun k' hk' => h k' (List.mem_cons_of_mem _ hk'))]
+    rfl
+
+theorem gap_close {s : St} {keys : List (Nat × Nat)} {δ : Nat → Int} (G : Gap s keys δ)
+    (hz : ∀ x r, s.assets x = some r → r.divisible = true → δ x = 0) : Gap s keys (fun _ => 0) := by
+  intro x r hr hd
+  have := G x r hr hd
+  rw [hz x r hr hd] at this
+  exact this
+
+theorem valOf_some (x c : Nat) (e : Int) : valOf x (some (c, e)) = if c = x then e else 0 := rfl
+theorem valOf_none (x : Nat) : valOf x none = 0 := rfl
+
+theorem sumInv_apply {fixed : Bool} {stable s s' : St} {op : Op} {keys : List (Nat × Nat)}
+    (hn : keys.Nodup) (h : apply fixed stable s op = .ok s') (V : SumInv s keys) (g : IdOK s op)
+    (ht : ∀ k ∈ touched op, k ∈ keys) : SumInv s' keys := by
+  have hids : IdInv s' := idInv_apply h V.ids g
+  cases op with
+  | create sd hsh cat dv rp dc fz =>
+    obtain ⟨hnone, he, _, ha⟩ := create_ok h
+    have hsum : ∀ x, sumCode s' x keys = sumCode s x keys :=
+      fun x => sumCode_congr s s' x keys (fun _ _ => by rw [he])
+    refine ⟨?_, ?_, hids, ?_⟩
+    · intro x r' hr' hd
+      rw [hsum x]
+      rw [ha] at hr'
+      by_cases e : x = hsh
+      · subst e
+        simp only [if_true] at hr'
+        injection hr' with hr'; subst hr'
+        have : sumCode s x keys = 0 := by
+          apply sumCode_zero
+          intro k _
+          cases hq : s.equity k.1 k.2 with
+          | none => rfl
+          | some p =>
+            obtain ⟨c, e⟩ := p
+            rw [valOf_some]
+            by_cases hc : c = x
+            · subst hc
+              obtain ⟨r, hr⟩ := V.live k.1 k.2 c e hq
+              rw [hnone] at hr; cases hr
+            · simp only [hc, if_false]
+        rw [this]; rfl
+      · simp only [e, if_false] at hr'
+        exact V.sum x r' hr' hd
+    · intro a id hne; rw [he] at hne; exact V.supp a id hne
+    · refine live_sameEquity he ?_ V.live
+      intro x r hr
+      rw [ha]
+      by_cases e : x = hsh
+      · simp only [e, if_true]; exact ⟨_, rfl⟩
+      · simp only [e, if_false]; exact ⟨r, hr⟩
+  | issue sd rc hsh code m amt =>
+    obtain ⟨a, r, s1, s2, tid, newEq, _, hpos, hl, _, h1, h2, h3, hcat⟩ := issue_ok h
+    subst h3
+    obtain ⟨hr, _⟩ := lookup_some hl
+    have hk : (rc, tid) ∈ keys := by
+      rcases hcat with ⟨_, ht', _⟩ | ⟨_, ht', _⟩
+      · subst ht'; exact ht _ (by simp [touched])
+      · subst ht'; exact ht _ (by simp [touched])
+    obtain ⟨r1, hr1, G1⟩ := gap_putSupply h1 V.sum
+    rw [hr] at hr1; injection hr1 with hr1; subst hr1
+    have G2 := gap_putEquity hn hk h2 G1
+    obtain ⟨_, _, _, he1, _, ha1⟩ := putSupply_ok h1
+    obtain ⟨_, ha2, _, he2⟩ := putEquity_ok h2
+    -- net effect of the entry write on the holdings of asset x
+    have hdelta : ∀ x, valOf x (some (code, newEq)) - valOf x (s1.equity rc tid) = if code = x then a else 0 := by
+      intro x
+      rw [he1, valOf_some]
+      rcases hcat with ⟨_, ht', hne⟩ | ⟨hc, ht', hne⟩
+      · subst ht'
+        cases hq : s.equity rc tid with
+        | none => rw [hq] at hne; simp only at hne; subst hne; rw [valOf_none]; split <;> omega
+        | some p =>
+          obtain ⟨c0, e0⟩ := p
+          rw [hq] at hne; simp only at hne; subst hne
+          have : c0 = tid := V.ids.own rc tid c0 e0 r hq hr
+          subst this
+          rw [valOf_some]; split <;> omega
+      · subst ht'; subst hne
+        rw [(g r hl hc).1 rc, valOf_none]; split <;> omega
+    refine ⟨?_, ?_, hids, ?_⟩
+    · have G3 : Gap (setMeta s2 rc tid (decide (m > 0))) keys
+          (fun x => (fun _ => (0 : Int)) x + (if x = code then (if r.divisible = true then r.supply + a else r.supply + 1) - r.supply else 0) -
+            (valOf x (some (code, newEq)) - valOf x (s1.equity rc tid))) := by
+        intro x r' hr' hd
+        have := G2 x r' hr' hd
+        rw [show sumCode (setMeta s2 rc tid (decide (m > 0))) x keys = sumCode s2 x keys from
+          sumCode_congr _ _ x keys (fun _ _ => rfl)]
+        exact this
+      refine gap_close G3 ?_
+      intro x r' hr' hd
+      rw [setMeta_assets, ha2, ha1] at hr'
+      rw [hdelta x]
+      by_cases e : x = code
+      · subst e
+        simp only [if_true] at hr' ⊢
+        injection hr' with hr'; subst hr'
+        try simp only at hd
+        (try simp only [hd, if_true]); omega
+      · have e' : ¬ code = x := fun k => e k.symm
+        simp only [e, e', if_false]; omega
+    · intro x y hne
+      rw [setMeta_equity] at hne
+      exact supp_putEquity h2 (fun a id hq => V.supp a id (by rw [he1] at hq; exact hq)) hk x y hne
+    · have L1 := live_putSupply h1 V.live
+      have L2 : Live s2 := live_putEquity h2 L1 (by rw [ha1]; simp only [if_true]; exact ⟨_, rfl⟩)
+      exact L2
+  | replenish sd rc code id amt =>
+    obtain ⟨a, r, s1, _, hpos, hl, _, _, hdiv, hold, h1, h2⟩ := replenish_ok h
+    obtain ⟨hr, _⟩ := lookup_some hl
+    have hk : (rc, id) ∈ keys := ht _ (by simp [touched])
+    have G1 := gap_putEquity hn hk h1 V.sum
+    obtain ⟨r1, hr1, G2⟩ := gap_putSupply h2 G1
+    obtain ⟨_, ha1, _, he1⟩ := putEquity_ok h1
+    rw [ha1, hr] at hr1; injection hr1 with hr1; subst hr1
+    obtain ⟨_, _, _, he2, _, ha2⟩ := putSupply_ok h2
+    have hdelta : ∀ x, valOf x (some (code, (oldEntry s rc id code).2 + a)) - valOf x (s.equity rc id) = if code = x then a else 0 := by
+      intro x
+      rw [valOf_some]
+      unfold oldEntry at hold ⊢
+      cases hq : s.equity rc id with
+      | none => simp only [valOf_none]; split <;> omega
+      | some p =>
+        obtain ⟨c0, e0⟩ := p
+        rw [hq] at hold; simp only at hold; subst hold
+        simp only [valOf_some]; split <;> omega
+    refine ⟨?_, ?_, hids, ?_⟩
+    · refine gap_close G2 ?_
+      intro x r' hr' hd
+      try simp only
+      rw [hdelta x]
+      by_cases e : x = code
+      · subst e; simp only [if_true]; omega
+      · have e' : ¬ code = x := fun k => e k.symm
+        simp only [e, e', if_false]; omega
+    · intro x y hne
+      rw [he2] at hne
+      exact supp_putEquity h1 V.supp hk x y hne
+    · exact live_putSupply h2 (live_putEquity h1 V.live ⟨r, hr⟩)
+  | modify sd code fz =>
+    obtain ⟨r, hl, he, _, hcase⟩ := modify_ok h
+    rcases hcase with rfl | ⟨b, _, ha⟩
+    · exact V
+    · have hsum : ∀ x, sumCode s' x keys = sumCode s x keys :=
+        fun x => sumCode_congr s s' x keys (fun _ _ => by rw [he])
+      refine ⟨?_, ?_, hids, ?_⟩
+      · intro x r' hr' hd
+        rw [hsum x]
+        rw [ha] at hr'
+        by_cases e : x = code
+        · subst e
+          simp only [if_true] at hr'
+          injection hr' with hr'; subst hr'
+          exact V.sum x r (lookup_some hl).1 hd
+        · simp only [e, if_false] at hr'
+          exact V.sum x r' hr' hd
+      · intro a id hne; rw [he] at hne; exact V.supp a id hne
+      · refine live_sameEquity he ?_ V.live
+        intro x r0 hr0
+        rw [ha]
+        by_cases e : x = code
+        · simp only [e, if_true]; exact ⟨_, rfl⟩
+        · simp only [e, if_false]; exact ⟨r0, hr0⟩
+  | transfer sd rc id ck amt =>
+    obtain ⟨am, c0, e0, r0, _, hse, _, _, hr0, _, _, hcase⟩ := transfer_ok h
+    rcases hcase with rfl | hm
+    · exact V
+    · obtain ⟨s1, c', e', h1, hs1, h2⟩ := moveEquity_ok hm
+      have hks : (sd, id) ∈ keys := ht _ (by simp [touched])
+      have hkr : (rc, id) ∈ keys := ht _ (by simp [touched])
+      obtain ⟨_, ha2, _, he2⟩ := putEquity_ok h2
+      generalize hamount : (if r0.divisible = true then am else e0) = amount at h1 h2 hm he2
+      rcases h1 with ⟨_, h1⟩ | ⟨hrc, h1⟩
+      · -- credit the receiver's entry
+        have hce : (creditEntry s rc id c0 amount).1 = c0 := by
+          unfold creditEntry
+          split
+          · rfl
+          · rename_i c2 e2 hq; exact V.ids.idc rc sd id c2 e2 c0 e0 hq hse
+        have hdelta1 : ∀ x, valOf x (some (creditEntry s rc id c0 amount)) - valOf x (s.equity rc id) = if c0 = x then amount else 0 := by
+          intro x
+          unfold creditEntry at hce ⊢
+          cases hq : s.equity rc id with
+          | none => simp only [valOf_none, valOf_some]; split <;> omega
+          | some p =>
+            obtain ⟨c2, e2⟩ := p
+            rw [hq] at hce; simp only at hce; subst hce
+            simp only [valOf_some]; split <;> omega
+        have G1 := gap_putEquity hn hkr h1 V.sum
+        have G2 := gap_putEquity hn hks h2 G1
+        obtain ⟨_, ha1, _, he1⟩ := putEquity_ok h1
+        have I1 : IdInv s1 ∧ Live s1 := by
+          generalize creditEntry s rc id c0 amount = X at h1 hce
+          obtain ⟨x1, x2⟩ := X
+          simp only at hce; subst hce
+          exact ⟨idInv_putEquity h1 V.ids (fun b c2 e2 hb => V.ids.idc b sd id c2 e2 x1 e0 hb hse)
+            (fun r' hr' => V.ids.own sd id x1 e0 r' hse hr'), live_putEquity h1 V.live ⟨r0, hr0⟩⟩
+        have hc' : c' = c0 := by
+          rw [he1] at hs1
+          by_cases k : sd = rc
+          · simp [k] at hs1; rw [← hce, hs1]
+          · simp [k] at hs1; rw [hse] at hs1; cases hs1; rfl
+        subst hc'
+        refine ⟨?_, ?_, hids, ?_⟩
+        · refine gap_close G2 ?_
+          intro x r' hr' hd
+          try simp only
+          rw [hdelta1 x, hs1, valOf_some, valOf_some]
+          split <;> omega
+        · exact supp_putEquity h2 (supp_putEquity h1 V.supp hkr) hks
+        · exact live_putEquity h2 I1.2 (by rw [ha1]; exact ⟨r0, hr0⟩)
+      · -- burn: the recorded supply shrinks
+        obtain ⟨r1, hr1, G1⟩ := gap_putSupply h1 V.sum
+        rw [hr0] at hr1; injection hr1 with hr1; subst hr1
+        have G2 := gap_putEquity hn hks h2 G1
+        obtain ⟨_, _, _, he1, _, ha1⟩ := putSupply_ok h1
+        have hc' : c' = c0 := by rw [he1, hse] at hs1; cases hs1; rfl
+        subst hc'
+        refine ⟨?_, ?_, hids, ?_⟩
+        · refine gap_close G2 ?_
+          intro x r' hr' hd
+          rw [ha2, ha1] at hr'
+          try simp only
+          rw [hs1, valOf_some, valOf_some]
+          by_cases e : x = c'
+          · subst e
+            simp only [if_true] at hr' ⊢
+            injection hr' with hr'; subst hr'
+            try simp only at hd
+            (try simp only [hd, if_true]); omega
+          · have e' : ¬ c' = x := fun k => e k.symm
+            simp only [e, e', if_false]; omega
+        · exact supp_putEquity h2 (fun a i hq => V.supp a i (by rw [he1] at hq; exact hq)) hks
+        · exact live_putEquity h2 (live_putSupply h1 V.live) (by rw [ha1]; simp only [if_true]; exact ⟨_, rfl⟩)
+
+/-- the guard over a run: every transaction respects the id discipline in the state it is applied to -/
+def GuardedOps (fixed : Bool) (stable : St) : St → List Op → Prop
+  | _, [] => True
+  | s, op :: ops => IdOK s op ∧ GuardedOps fixed stable (step fixed stable s op) ops
+
+def GuardedBlocks (fixed : Bool) : St → List (List Op) → Prop
+  | _, [] => True
+  | s, b :: bs => GuardedOps fixed s s b ∧ GuardedBlocks fixed (runOps fixed s s b) bs
+
+theorem sumInv_runOps (fixed : Bool) (stable : St) (keys : List (Nat × Nat)) (hn : keys.Nodup) :
+    ∀ (ops : List Op) (s : St), SumInv s keys → GuardedOps fixed stable s ops →
+      (∀ op ∈ ops, ∀ k ∈ touched op, k ∈ keys) → SumInv (runOps fixed stable s ops) keys := by
+  intro ops
+  induction ops with
+  | nil => intro s V _ _; exact V
+  | cons op ops ih =>
+    intro s V g ht
+    apply ih _ _ g.2 (fun op' h' => ht op' (List.mem_cons_of_mem _ h'))
+    unfold step
+    split
+    · rename_i s' h
+      exact sumInv_apply hn h V g.1 (ht op List.mem_cons_self)
+    · exact V
+
+theorem sumInv_runBlocks (fixed : Bool) (keys : List (Nat × Nat)) (hn : keys.Nodup) :
+    ∀ (blocks : List (List Op)) (s : St), SumInv s keys → GuardedBlocks fixed s blocks →
+      (∀ b ∈ blocks, ∀ op ∈ b, ∀ k ∈ touched op, k ∈ keys) → SumInv (runBlocks fixed s blocks) keys := by
+  intro blocks
+  induction blocks with
+  | nil => intro s V _ _; exact V
+  | cons b bs ih =>
+    intro s V g ht
+    exact ih _ (sumInv_runOps fixed s keys hn b s V g.1 (ht b List.mem_cons_self)) g.2
+      (fun b' h' => ht b' (List.mem_cons_of_mem _ h'))
+
+theorem sumInv_empty (keys : List (Nat × Nat)) : SumInv St.empty keys := by
+  refine ⟨?_, ?_, idInv_empty, ?_⟩
+  · intro x r h; simp [St.empty] at h
+  · intro a id h; simp [St.empty] at h
+  · intro a id c e h; simp [St.empty] at h
+
+/-- `supply_eq_sum_equity` (partial: under the id discipline; either variant of the transfer, any amounts):
+    after ANY sequence of blocks from the empty state, for every divisible asset the recorded total supply
+    equals the sum, over any duplicate-free key list containing every (holder, id) the transactions may write,
+    of the entries carrying its code — and there is no entry outside that list. -/
+theorem supply_eq_sum_equity_partial (fixed : Bool) (blocks : List (List Op)) (keys : List (Nat × Nat))
+    (hn : keys.Nodup) (ht : ∀ b ∈ blocks, ∀ op ∈ b, ∀ k ∈ touched op, k ∈ keys)
+    (hg : GuardedBlocks fixed St.empty blocks) :
+    (∀ x r, (runBlocks fixed St.empty blocks).assets x = some r → r.divisible = true →
+        r.supply = sumCode (runBlocks fixed St.empty blocks) x keys) ∧
+    (∀ a id, (runBlocks fixed St.empty blocks).equity a id ≠ none → (a, id) ∈ keys) := by
+  have V := sumInv_runBlocks fixed keys hn blocks St.empty (sumInv_empty keys) hg ht
+  refine ⟨?_, V.supp⟩
+  intro x r hr hd
+  simpa using V.sum x r hr hd
+
+/-- the foreign-asset-id witness: account 1 creates token 1 (victim asset), account 4 creates token 7 and
+    replenishes 1 000 000 units of ITS asset 7 to itself under the id of asset 1; then the issuer of asset 1
+    issues ONE unit to account 4 -/
+def foreignWitness : List (List Op) :=
+  [[.create 1 1 1 true true 2 false, .create 4 7 1 true true 2 false],
+   [.replenish 4 4 7 1 (some 1000000)],
+   [.issue 1 4 20 1 4 (some 1)]]
+
+/-- REFUTATION of the unguarded sum invariant on the live model (defect NOT repaired, known finding
+    c12/supply-not-sum/foreign-asset-id; reproduced on the real engine by `hx c12`): asset 1 records supply 1,
+    account 4 owns 1 000 001 units of it (and can spend them: its AssetIdState is set); asset 7 records
+    1 000 000 that nobody owns. -/
+theorem supply_eq_sum_refuted :
+    ((runBlocks true St.empty foreignWitness).assets 1).map (·.supply) = some 1 ∧
+    (runBlocks true St.empty foreignWitness).equity 4 1 = some (1, 1000001) ∧
+    (runBlocks true St.empty foreignWitness).idMeta 4 1 = true ∧
+    sumCode (runBlocks true St.empty foreignWitness) 1 [(4, 1)] = 1000001 ∧
+    ((runBlocks true St.empty foreignWitness).assets 7).map (·.supply) = some 1000000 ∧
+    sumCode (runBlocks true St.empty foreignWitness) 7 [(4, 1)] = 0 := by decide
+
+/-- non-vacuity of the guard: the negative-transfer witness blocks respect the id discipline -/
+example : GuardedBlocks false St.empty witnessBlocks := by
+  simp [GuardedBlocks, GuardedOps, witnessBlocks, IdOK, St.empty, runOps, step, apply, create, issue, lookup,
+    verifyCode, putSupply, putEquity, setMeta, bind, Except.bind, pure, Except.pure]
+
+
 end LemoProofs.C12
